@@ -199,10 +199,14 @@ def explore_pair(arg):
     st = explore.Stats()
     found = {}
     stack = [[]]
+    import gc
+    gc.disable()
     while stack:
         p = stack.pop()
         x = run(p, None)
         explore._account(st, x, p)
+        if st.executions % 50 == 0:
+            gc.collect()
         if x.violation:
             st.violations.pop()
             found.setdefault(x.violation[:50], (x.violation, list(x.choices),
